@@ -604,7 +604,12 @@ func (hc *connectUnaryHandlerConn) Spec() Spec {
 
 func (hc *connectUnaryHandlerConn) Receive(msg any) error {
 	if err := hc.unmarshaler.Unmarshal(msg); err != nil {
-		return err
+		if errors.Is(err, io.EOF) {
+			return err // the end of the request
+		}
+		// Whatever went wrong, once the call's context is done - the client went
+		// away, or the deadline passed - that's why the call fails.
+		return wrapIfContextDone(hc.request.Context(), err)
 	}
 	return nil // must be a literal nil: nil *Error is a non-nil error
 }
@@ -617,7 +622,9 @@ func (hc *connectUnaryHandlerConn) Send(msg any) error {
 	hc.wroteBody = true
 	hc.writeResponseHeader(nil /* error */)
 	if err := hc.marshaler.Marshal(msg); err != nil {
-		return err
+		// Whatever went wrong, once the call's context is done - the client went
+		// away, or the deadline passed - that's why the call fails.
+		return wrapIfContextDone(hc.request.Context(), err)
 	}
 	return nil // must be a literal nil: nil *Error is a non-nil error
 }
@@ -706,6 +713,12 @@ func (hc *connectStreamingHandlerConn) Receive(msg any) error {
 			// io.EOF, so passing it on would look like a clean end of the request.
 			hc.receiveErr = errorf(CodeInvalidArgument, "protocol error: client sent an end-of-stream envelope")
 		}
+		if !errors.Is(hc.receiveErr, io.EOF) {
+			// Not the end of the request: whatever went wrong, once the call's
+			// context is done - the client went away, or the deadline passed -
+			// that's why the call fails.
+			hc.receiveErr = wrapIfContextDone(hc.request.Context(), hc.receiveErr)
+		}
 		return hc.receiveErr
 	}
 	return nil // must be a literal nil: nil *Error is a non-nil error
@@ -718,7 +731,9 @@ func (hc *connectStreamingHandlerConn) RequestHeader() http.Header {
 func (hc *connectStreamingHandlerConn) Send(msg any) error {
 	defer flushResponseWriter(hc.responseWriter)
 	if err := hc.marshaler.Marshal(msg); err != nil {
-		return err
+		// Whatever went wrong, once the call's context is done - the client went
+		// away, or the deadline passed - that's why the call fails.
+		return wrapIfContextDone(hc.request.Context(), err)
 	}
 	return nil // must be a literal nil: nil *Error is a non-nil error
 }
